@@ -839,7 +839,7 @@ fn main() {
                 if args.engine_enabled("th_chaos") {
                     th_chaos_managed(&args, &mut rep, prop, sc(150.0, 3000.0), false);
                 }
-                if args.engine_enabled("th_race") && matches!(prop, "C01" | "C02" | "C06" | "C07" | "C11") {
+                if args.engine_enabled("th_race") && matches!(prop, "C01" | "C02" | "C06" | "C07" | "C09" | "C11") {
                     th_race(&args, &mut rep, prop, sc(300.0, 12_000.0), false, prop == "C06");
                 }
                 if args.engine_enabled("th_hammer") {
